@@ -5,6 +5,7 @@ The engines run the same definitions the theorems in `KyroModel/Theorems` are ab
 import Driver.Tiered
 import Driver.QCacheEng
 import Driver.StoreEng
+import Driver.PersistEng
 
 open Driver
 
@@ -27,4 +28,5 @@ def main (args : List String) : IO UInt32 := do
   | ["tiered"] => loop stdin stdout Tiered.step none; return 0
   | ["qcache"] => loop stdin stdout QCacheEng.step none; return 0
   | ["store"] => loop stdin stdout StoreEng.step none; return 0
+  | ["persist"] => loop stdin stdout PersistEng.step none; return 0
   | _ => IO.eprintln "usage: kyro_driver <engine>"; return 2
